@@ -1907,6 +1907,10 @@ impl Element {
                 .0
                 .try_read_for(std::time::Duration::from_millis(10))
                 .ok_or(AutosarDataError::ParentElementLocked)?;
+            if matches!(locked_cur_elem.parent, ElementOrModel::None) {
+                // a removed element is not part of any file, even if it still has a local file set
+                return Err(AutosarDataError::ItemDeleted);
+            }
             if !locked_cur_elem.file_membership.is_empty() {
                 return Ok((cur_elem == self, locked_cur_elem.file_membership.clone()));
             }
